@@ -1,0 +1,50 @@
+//go:build verif
+
+package kv
+
+import (
+	"encoding/json"
+	"fmt"
+	"testing"
+
+	"github.com/gotid/god/internal/verifdrv"
+	"github.com/gotid/god/lib/hash"
+	"github.com/gotid/god/lib/store/cache"
+	"github.com/gotid/god/lib/store/redis"
+)
+
+// TestVerifDriverC13 (property C13): the shard the KV store dispatches a key to must be the node a consistent
+// hash built directly from the configured (address, weight) pairs returns. No server is contacted.
+func TestVerifDriverC13(t *testing.T) {
+	verifdrv.Run(t, func(raw json.RawMessage) any {
+		var c struct {
+			Weights []int    `json:"weights"`
+			Keys    []string `json:"keys"`
+		}
+		if err := json.Unmarshal(raw, &c); err != nil {
+			return map[string]any{"error": err.Error()}
+		}
+		conf := make(Config, len(c.Weights))
+		index := map[string]int{}
+		ref := hash.NewConsistentHash()
+		for i, w := range c.Weights {
+			addr := fmt.Sprintf("10.13.%d.%d:6379", i/200, i%200+1)
+			conf[i] = cache.NodeConfig{Config: redis.Config{Host: addr, Type: redis.NodeType}, Weight: w}
+			index[addr] = i
+			ref.AddWithWeight(addr, w)
+		}
+		st := New(conf).(kvStore)
+		got := make([]int, len(c.Keys))
+		want := make([]int, len(c.Keys))
+		for i, k := range c.Keys {
+			want[i], got[i] = -1, -1
+			if v, ok := ref.Get(k); ok {
+				want[i] = index[v.(string)]
+			}
+			if v, ok := st.dispatcher.Get(k); ok {
+				got[i] = index[v.(*redis.Redis).Addr]
+			}
+		}
+		return map[string]any{"got": got, "ref": want, "cluster": true}
+	})
+}
